@@ -152,3 +152,27 @@ class SimErrorCalculator(ErrorCalculator):
     def calc_error(self, refine_object, norm, volume_weights=None):
         self.asked += 1
         return self.answer(self.question(refine_object))
+
+
+class AffineModel(Function):
+    """UQ model played by the simulator: [g, c*g + e, const] with g arbitrary per point (keyed hash, bounded) so that the
+    original and the affinely transformed model share every grid of a refinement history"""
+
+    def __init__(self, key, c, e, const, smooth=False):
+        super().__init__()
+        self.key, self.c, self.e, self.const, self.smooth = key, c, e, const, smooth
+        self.seen = set()
+
+    def output_length(self):
+        return 3
+
+    def base(self, p):
+        if self.smooth:
+            return math.sin(sum((d + 1.3) * math.atan(x) for d, x in enumerate(p))) + 0.5
+        return Hs(self.key, "uq", p)
+
+    def eval(self, coordinates):
+        p = tuple(float(x) for x in coordinates)
+        self.seen.add(p)
+        g = self.base(p)
+        return [g, self.c * g + self.e, self.const]
